@@ -69,7 +69,7 @@ var c15Shapes = map[string][2]string{
 	"emptytags": {"@ :o!u@h PRIVMSG #c :hi", "@ :o!u@h PRIVMSG #c :again"},
 	// tags but no argument at all
 	"tagsnoargs": {"@a=b;c=d;e :o!u@h FOO", "@x=y :p!u@h FOO"},
-	"sixteen":   {":o!u@h PRIVMSG me \x01VERSION\x01 a3 a4 a5 a6 a7 a8 a9 a10 a11 a12 a13 a14 :last one", ":o!u@h PRIVMSG me \x01FINGER\x01 b3 b4 b5 b6 b7 b8 b9 b10 b11 b12 b13 b14 :last two"},
+	"sixteen":    {":o!u@h PRIVMSG me \x01VERSION\x01 a3 a4 a5 a6 a7 a8 a9 a10 a11 a12 a13 a14 :last one", ":o!u@h PRIVMSG me \x01FINGER\x01 b3 b4 b5 b6 b7 b8 b9 b10 b11 b12 b13 b14 :last two"},
 }
 
 func c15Scenario(p c15Params) *explore.Scenario {
